@@ -106,7 +106,12 @@ def _steps(b, n):
     def s11():
         return (b[2:4] in b, b"\r\n" in b, b"" in b[:n], 10 in b, b"zz" in b, b[:n].isspace(), b[1:3] in bytearray(b), (b + b" ")[6:].isspace())
 
-    return [s1, s2, s3, s4, s5, s6, s7, s8, s9, s10, s11]
+    def s12():
+        from easynetwork.lowlevel._utils import iter_bytes
+
+        return (bytes(mv[1:4]), bytes(memoryview(b)[n:]), [x for x in iter_bytes(b[:3])], list(map(lambda x, y: x + y, b[:2], b[2:4])), b"".join(map(int.to_bytes, mv[:2])))
+
+    return [s1, s2, s3, s4, s5, s6, s7, s8, s9, s10, s11, s12]
 
 
 def battery(b: bytes, n: int):
